@@ -193,6 +193,48 @@ func runC16(c *Ctx) {
 		}
 	}
 
+	// ---------------- (a''') a crypto.Signer whose ASN.1 output carries more than SEQUENCE{r,s} ----------------
+	// (bytes after the SEQUENCE, a third element, a BER long-form length): whatever the library makes of it,
+	// a signature it returns is the fixed-width r||s of the (r,s) the key produced
+	for ci, cv := range curves {
+		alg := c16algs[ci]
+		n := refcrypto.OrderSize(cv)
+		key := gen.ECKey(cv, r)
+		for _, form := range []string{"trailing", "extra-element", "long-length"} {
+			for i := 0; i < c.N(60, 3000); i++ {
+				rr := new(big.Int).Mod(new(big.Int).SetBytes(r.Bytes(n+2)), cv.Params().N)
+				ss := new(big.Int).Mod(new(big.Int).SetBytes(r.Bytes(n+2)), cv.Params().N)
+				if i%3 == 1 {
+					ss.Rsh(ss, uint(8*(1+i%4))) // short s: room for appended bytes to be mistaken for part of it
+				}
+				if i%3 == 2 {
+					rr.Rsh(rr, uint(8*(1+i%4)))
+				}
+				if rr.Sign() == 0 || ss.Sign() == 0 {
+					continue
+				}
+				in := map[string]any{"curve": cv.Params().Name, "der_form": form, "r": rr.Text(16), "s": ss.Text(16)}
+				signer, err := cose.NewSigner(alg, &refcrypto.StubECDSASigner{Pub: &key.PublicKey, R: rr, S: ss, Form: form})
+				if err != nil {
+					continue
+				}
+				var out []byte
+				if guard(rec, "ecdsaCryptoSigner.Sign", in, func() { out, err = signer.Sign(gen.Entropy, []byte("content")) }) {
+					continue
+				}
+				rec.Eval(1)
+				rec.Event("odd-der-signatures")
+				rec.Class(fmt.Sprintf("%s/generic/der=%s/ok=%v/r-lz%d/s-lz%d", cv.Params().Name, form, err == nil, lzClass(rr, n), lzClass(ss, n)))
+				if err != nil {
+					continue // refusing odd ASN.1 is fine
+				}
+				if want := refcrypto.EncodeRS(cv, rr, ss); !eqBytes(out, want) {
+					rec.Violate("not-fixed-width", cv.Params().Name+"/generic/der="+form, fmt.Sprintf("signature %s\nis not r||s of the (r,s) the key produced: %s", hexs(out), hexs(want)), in)
+				}
+			}
+		}
+	}
+
 	// ---------------- (a0) the exported conversion primitives ----------------
 	for i := 0; i < c.N(4000, 200000); i++ {
 		size := r.Intn(70)
